@@ -7,6 +7,7 @@ import (
 	"github.com/tsawler/tabula/core"
 	"github.com/tsawler/tabula/layout"
 	"github.com/tsawler/tabula/model"
+	"github.com/tsawler/tabula/pages"
 	"github.com/tsawler/tabula/text"
 )
 
@@ -60,5 +61,57 @@ func TestLeftMarginTie(t *testing.T) {
 		if got := d.Detect(lines, 600, 800); sig(got) != sig(first) {
 			t.Fatalf("paragraph detection differs between runs on the same input: %s vs %s", sig(first), sig(got))
 		}
+	}
+}
+
+type mapResolver map[int]core.Object
+
+func (m mapResolver) Resolve(o core.Object) (core.Object, error) {
+	if r, ok := o.(core.IndirectRef); ok {
+		return m[r.Number], nil
+	}
+	return o, nil
+}
+func (m mapResolver) ResolveDeep(o core.Object) (core.Object, error) { return m.Resolve(o) }
+func (m mapResolver) ResolveReference(r core.IndirectRef) (core.Object, error) {
+	return m[r.Number], nil
+}
+
+// C03 / R3.5: a failed page-tree load left the partially filled page list behind as if it were complete: the same
+// call repeated returned a truncated document without an error.
+func TestPageTreeFailedLoadIsNotCached(t *testing.T) {
+	res := mapResolver{
+		2: core.Dict{"Type": core.Name("Page")},
+		3: core.Dict{"Type": core.Name("Bogus")},
+	}
+	root := core.Dict{"Type": core.Name("Pages"), "Count": core.Int(2),
+		"Kids": core.Array{core.IndirectRef{Number: 2}, core.IndirectRef{Number: 3}}}
+	tree := pages.NewPageTree(root, res)
+	_, err1 := tree.Pages()
+	ps, err2 := tree.Pages()
+	if err1 == nil {
+		t.Fatal("expected the malformed tree to be rejected")
+	}
+	if err2 == nil {
+		t.Fatalf("the repeated call returned %d page(s) and no error after the first call failed with %q", len(ps), err1)
+	}
+}
+
+// C03 / R3.5: an object stream whose header fails to parse kept its "decoded" mark: the repeated lookup went on with
+// the offsets read so far instead of failing again.
+func TestObjectStreamFailedDecodeIsNotCached(t *testing.T) {
+	data := []byte("10 0 xx 5 (a) (b)")
+	st := &core.Stream{Dict: core.Dict{"Type": core.Name("ObjStm"), "N": core.Int(2), "First": core.Int(10), "Length": core.Int(len(data))}, Data: data}
+	os, err := core.NewObjectStream(st)
+	if err != nil {
+		t.Fatal(err)
+	}
+	_, _, err1 := os.GetObjectByIndex(0)
+	obj, _, err2 := os.GetObjectByIndex(0)
+	if err1 == nil {
+		t.Fatal("expected the malformed header to be rejected")
+	}
+	if err2 == nil {
+		t.Fatalf("the repeated lookup returned %v and no error after the first failed with %q", obj, err1)
 	}
 }
